@@ -93,7 +93,7 @@ pub fn miri_stage_offset(workload: &str, tier: &str, seed: u64, from: u64, to: u
     let mut lo = from;
     while lo < n {
         let hi = (lo + per).min(n);
-        match base(lo, hi).spawn() {
+        match crate::util::own_group(&mut base(lo, hi)).spawn() {
             Ok(c) => children.push((lo, hi, c)),
             Err(e) => res.tool_failure = Some(format!("cannot spawn miri shard: {e}")),
         }
@@ -106,7 +106,7 @@ pub fn miri_stage_offset(workload: &str, tier: &str, seed: u64, from: u64, to: u
             match c.try_wait() {
                 Ok(Some(_)) => break,
                 Ok(None) if start.elapsed().as_secs() > timeout_s => {
-                    let _ = c.kill();
+                    crate::util::kill_tree(&mut c);
                     timed_out = true;
                     break;
                 }
